@@ -134,10 +134,14 @@ func (ex *Exec) verifyFunction(fn *ssa.Function, con *Contract) (rep *FuncReport
 		var fs []*Term
 		v := freshVal(p.Type(), "in."+paramName(p, i), &fs)
 		ex.addFacts(nil, fs)
+		ex.assumeSealed(v, p.Type())
 		args = append(args, v)
-		for k, l := range flatten(v, nil) {
-			_ = k
+		for _, l := range flatten(v, nil) {
 			ex.inputs = append(ex.inputs, namedTerm{l.Name, l})
+			if l.Sort == SPtr {
+				// objects passed in were allocated before this call
+				ex.fact(nil, Not(underPred(l, func(q *Term) *Term { return P.mk("(_ is new)", "", SBool, []*Term{q}, nil) }, 3)))
+			}
 		}
 	}
 	var bindings []Val
@@ -192,6 +196,11 @@ func (ex *Exec) verifyFunction(fn *ssa.Function, con *Contract) (rep *FuncReport
 	if con.HasMod || con.Pure {
 		ex.frameCheck(fr, con, res.st, env)
 	}
+	for _, cl := range con.Asserts {
+		if !fr.assertsDone[cl] {
+			ex.oblige(fr, res.st, "binding", con.Anchors[cl], False(), token.NoPos, "assert anchor "+con.Anchors[cl]+" matches no instruction")
+		}
+	}
 	return rep
 }
 
@@ -220,26 +229,31 @@ func (ex *Exec) assumeGlobals(fr *Frame, st *State) {
 // frameCheck: every heap cell outside the modifies set (and outside objects allocated by this
 // call) has its entry value at return.
 func (ex *Exec) frameCheck(fr *Frame, con *Contract, fin *State, env *SpecEnv) {
-	entry := fr.entry
+	ex.frameObligations(fr, "frame", fr.entry, fin, con.Modifies, env, 0)
+}
+
+// frameObligations proves that `fin` differs from `entry` only at the locations named by mods
+// (evaluated in the entry state) and at objects allocated after id minNew.
+func (ex *Exec) frameObligations(fr *Frame, kind string, entry, fin *State, modClauses []*Clause, env *SpecEnv, minNew int) {
 	if fin.heap.epoch != entry.heap.epoch {
-		ex.oblige(fr, fin, "frame", "heap", False(), token.NoPos, "the heap was havoced by a call without contract; frame cannot be established")
+		ex.oblige(fr, fin, kind, "heap", False(), token.NoPos, "the heap was havoced by a call without contract; frame cannot be established")
 		return
 	}
 	// allowed locations from modifies clauses
 	type modItem struct {
 		kind string // "loc", "map", "elems", "ghost"
 		addr *Term
-		typ  types.Type
 		name string
 	}
 	var mods []modItem
-	for _, m := range con.Modifies {
+	for _, m := range modClauses {
 		text := strings.TrimSpace(m.Text)
 		if text == "*" || text == "everything" {
 			return
 		}
 		oenv := *env
 		oenv.st = entry
+		oenv.old = entry
 		oenv.inOld = true
 		if strings.HasSuffix(text, "[*]") {
 			base := strings.TrimSuffix(text, "[*]")
@@ -295,12 +309,12 @@ func (ex *Exec) frameCheck(fr *Frame, con *Contract, fin *State, env *SpecEnv) {
 		}
 		ks, _ := arrKV(knownArrays[n])
 		if ks != SPtr {
-			ex.oblige(fr, fin, "frame", n, SameVal0(a1, a0), token.NoPos, "ghost state "+n+" unchanged")
+			ex.oblige(fr, fin, kind, n, SameVal0(a1, a0), token.NoPos, "ghost state "+n+" unchanged")
 			continue
 		}
 		p := Fresh("frame.p", SPtr)
 		var allowed []*Term
-		allowed = append(allowed, underPred(p, func(q *Term) *Term { return P.mk("(_ is new)", "", SBool, []*Term{q}, nil) }, 4))
+		allowed = append(allowed, underPred(p, func(q *Term) *Term { return newerThan(q, minNew) }, 4))
 		isMapArr := strings.HasPrefix(n, "Mdom@") || strings.HasPrefix(n, "Mval@") || n == mlenName
 		for _, m := range mods {
 			switch m.kind {
@@ -320,7 +334,47 @@ func (ex *Exec) frameCheck(fr *Frame, con *Contract, fin *State, env *SpecEnv) {
 			}
 		}
 		goal := Or(append(allowed, SameVal0(Select(a1, p), Select(a0, p)))...)
-		ex.oblige(fr, fin, "frame", n, goal, token.NoPos, "cells of "+n+" outside the modifies set keep their entry value")
+		ex.oblige(fr, fin, kind, n, goal, token.NoPos, "cells of "+n+" outside the modifies set keep their entry value")
+	}
+}
+
+// newerThan: q is new(k) with k > min.
+func newerThan(q *Term, min int) *Term {
+	isNew := P.mk("(_ is new)", "", SBool, []*Term{q}, nil)
+	if min <= 0 {
+		return isNew
+	}
+	return And(isNew, Gt(P.mk("nid", "", SInt, []*Term{q}, nil), IntT(int64(min))))
+}
+
+// olderThanNow: the pointer does not point into an object allocated after the current moment.
+func (ex *Exec) olderThanNow(q *Term) *Term {
+	k := ex.nextObj
+	return Not(underPred(q, func(r *Term) *Term { return newerThan(r, k) }, 3))
+}
+
+// assumeSealed adds the closed-world dynamic type fact for sealed interface values inside v.
+func (ex *Exec) assumeSealed(v Val, t types.Type) {
+	switch kindOf(t) {
+	case kIface:
+		if tag, ok := v.(*Agg).F[0].(*Term); ok && !tag.hasBound {
+			if f := ex.sealedTagFact(t, tag); f != nil {
+				ex.fact(nil, f)
+			}
+		}
+	case kStruct:
+		st := t.Underlying().(*types.Struct)
+		for i := 0; i < st.NumFields(); i++ {
+			ex.assumeSealed(v.(*Agg).F[i], st.Field(i).Type())
+		}
+	}
+}
+
+func (ex *Exec) assumeOlder(v Val) {
+	for _, l := range flatten(v, nil) {
+		if l.Sort == SPtr && !l.hasBound && l.Op == "const" {
+			ex.fact(nil, ex.olderThanNow(l))
+		}
 	}
 }
 
@@ -342,4 +396,36 @@ func underPred(p *Term, pred func(*Term) *Term, depth int) *Term {
 	fb := P.mk("fbase", "", SPtr, []*Term{p}, nil)
 	eb := P.mk("ebase", "", SPtr, []*Term{p}, nil)
 	return Or(r, And(isFld, underPred(fb, pred, depth-1)), And(isElt, underPred(eb, pred, depth-1)))
+}
+
+
+// verifyLemma proves a package-level lemma (closed specification formula).
+func (ex *Exec) verifyLemma(cl *Clause, pkgPath string) (rep *FuncReport) {
+	pk := ex.prog.Pkgs[pkgPath]
+	label := pk.Types.Name() + ".lemma"
+	rep = &FuncReport{Func: label + "[" + cl.Label + "]", Contract: fmt.Sprintf("%s:%d", shortFile(cl.File), cl.Line)}
+	start := len(ex.obls)
+	defer func() {
+		if r := recover(); r != nil {
+			if u, ok := r.(unsupported); ok {
+				rep.Error = u.msg
+				ex.obls = ex.obls[:start]
+				return
+			}
+			panic(r)
+		}
+		for _, o := range ex.obls[start:] {
+			rep.Obligations = append(rep.Obligations, o.Name)
+		}
+	}()
+	ensureIntrinsics(pk.Types)
+	ex.facts = nil
+	ex.inputs = nil
+	ex.pureSeen = map[string]bool{}
+	st := &State{reach: True(), cells: map[*ssa.Alloc]Val{}, heap: newHeap("")}
+	env := &SpecEnv{ex: ex, pkg: pk, pos: pkgPos(pk, ex.cs.Scope[pk.PkgPath]), st: st, old: st, objs: map[types.Object]Val{}, entry: map[types.Object]Val{}, label: rep.Func}
+	g := env.evalBool(cl.Text)
+	fr := &Frame{ex: ex, label: label}
+	ex.oblige(fr, st, "lemma", cl.Label, g, token.NoPos, cl.Text)
+	return rep
 }
